@@ -4,9 +4,9 @@ package props
 var extraNotes4 = map[string][2]string{
 	"C08": {"rounding rule for the level reduction", "(K2) in decryptChunkData every division of the span-derived length by the per-level capacity rounds up ((x + d-1)/d), so a partially filled last reference is still counted."},
 	"C09": {"threshold rule for the pyramid walk", "(K1) GetPyramid skips the walk over intermediate chunks only for a single-chunk file (span <= ChunkSize), for no larger threshold."},
-	"C13": {"provenance, freshness and write-off rules for the counter write-back", "(P2) the value collectGarbage writes back to gcSize does not depend on any variable accumulated by the candidate-selection callback handed to gcIndex.Iterate; (Lk3) it derives from gcSize.Get() calls made with batchMu held; (G4) the branch that writes the whole counter off is guarded by the emptiness of the slice the selection callback fills."},
+	"C13": {"provenance, freshness and write-off rules for the counter write-back", "(P2) the value collectGarbage writes back to gcSize does not depend on any variable accumulated by the candidate-selection callback handed to gcIndex.Iterate; (Lk3) it derives from gcSize.Get() calls made with batchMu held; (G4) the branch that writes the whole counter off is guarded by the emptiness of the slice the selection callback fills; (G5) setPin lowers its counter delta only behind the successful read of the root's gc-index entry."},
 	"C17": {"coverage rule of the all-bits-set test behind the fully-downloaded report", "(V1) BitVector.Equals answers true only after a counting loop from 0 to bv.len (bit form, advancing only behind Get(i)) or to bv.len/8 (byte form, advancing only behind b[j]==0xff, the tail compared under the mask 1<<(len%8)-1) has run to its end; (V2) isDownload answers the constant false or Equals of a vector read from the presence table; (F3) in the reload callback of initChunkInfoDiscover every return is preceded by putChunkInfoDiscover, lies behind a non-nil error, or is the foreign-key stop; (F4) a fresh per-file entry of the discovery table (presence[file] = make(...)) is followed on every path to the exit by an insertion into it."},
-	"C19": {"must-stage rule", "(F3) every return of a shed *InBatch method is preceded on all paths by a staging call on the batch parameter, or lies only behind a non-nil error of some call — no method decides from the currently stored value to skip the staging; (W2) every append onto Index.prefix (the filter prefix of Iterate / First / Last) starts from bytes clipped to their length, at the site or at every store of the field — the shared prefix bytes are never written; (G4) before the walk Index.Iterate steps the cursor only behind bytes.Equal(start key, cursor key)."},
+	"C19": {"must-stage rule", "(F3) every return of a shed *InBatch method is preceded on all paths by a staging call on the batch parameter, or lies only behind a non-nil error of some call — no method decides from the currently stored value to skip the staging; (W2) every append onto Index.prefix (the filter prefix of Iterate / First / Last) starts from bytes clipped to their length, at the site or at every store of the field — the shared prefix bytes are never written; (G4) before the walk Index.Iterate steps the cursor only behind bytes.Equal(start key, cursor key); (P4) in Index.Get / Fill the receiver of Item.Merge is the item decoded by decodeValueFunc, the argument the caller's item."},
 	"C39": {"coverage rules", "(V1) as C17.V1; (V2) every counting loop of a BitVector method starts its counter at 0 and only advances it by one (a sufficient condition: a correct skip-ahead optimisation would be reported for review)."},
 	"C22": {"adjacency rule for the saturation pass", "(G4) in recalcDepth's saturation callback the cursor cell (compared == with the peer's bin) is set to the peer's bin only behind bin <= cursor+1: a bin with no reachable peer is not passed over."},
 	"C12": {"removal-list rule shared with C16", "(G4) = C16.G1: the list of chunks an eviction may delete (getUnRepeatChunk) never holds a chunk whose per-file reference count exceeds one."},
